@@ -182,7 +182,9 @@ def ent_desc():
             elif kind == 'axis':
                 val = st.tuples(vec3(512), vec3(512)).map(list)
             elif kind == 'sidelist':
-                val = st.lists(st.integers(0, 40), max_size=4)     # indices into the template's faces (or unknown ids)
+                # indices into the template's faces (world brushes first, then brush-entity solids in entity order - so
+                # forward references to a later brush entity's faces are common); negative = an id no face has
+                val = st.lists(st.one_of(st.integers(0, 200), st.integers(0, 200), st.integers(-5, -1)), max_size=6)
             elif kind == 'node':
                 val = st.integers(1, 6)
             else:
@@ -317,7 +319,8 @@ def build_template(tdesc):
     for ent, key, idxs in pending_sidelists:
         ids = []
         for i in idxs:
-            ids.append(faces[i].id if i < len(faces) else 900000 + i)   # unknown ids are legal and dropped
+            # unknown ids are legal and dropped
+            ids.append(faces[i % len(faces)].id if (faces and i >= 0) else 900000 + abs(i))
         ent[key] = ' '.join(map(str, ids))
     return vmf
 
